@@ -22,9 +22,11 @@ package commitlog
 
 import (
 	"bytes"
+	"crypto/sha1"
 	"encoding/binary"
 	"encoding/json"
 	"fmt"
+	"io"
 	"os"
 	"os/exec"
 	"path/filepath"
@@ -179,6 +181,19 @@ func vkParseIndex(b []byte, base int64) []vkEnt {
 	return ents
 }
 
+// vkReadHead reads at most n bytes from the start of a file (an active index
+// file is pre-allocated to 10 MB; its entries are at the front).
+func vkReadHead(path string, n int) []byte {
+	fh, err := os.Open(path)
+	if err != nil {
+		return nil
+	}
+	defer fh.Close()
+	b := make([]byte, n)
+	k, _ := io.ReadFull(fh, b)
+	return b[:k]
+}
+
 func vkSuffix(s string) (string, bool) {
 	switch s {
 	case "":
@@ -237,8 +252,7 @@ func vkProjectDir(dir string) vkFS {
 				fs.Other = append(fs.Other, name)
 				continue
 			}
-			b, _ := os.ReadFile(path)
-			fs.Xf = append(fs.Xf, vkIdxFile{B: base, X: x, Ents: vkParseIndex(b, base)})
+			fs.Xf = append(fs.Xf, vkIdxFile{B: base, X: x, Ents: vkParseIndex(vkReadHead(path, 1<<16), base)})
 		default:
 			fs.Other = append(fs.Other, name)
 		}
@@ -652,6 +666,8 @@ func TestVerifCrash(t *testing.T) {
 	maxOcc := vkEnvInt("VERIF_MAXOCC", 2)
 	par := vkEnvInt("VERIF_PAR", 6)
 	only := os.Getenv("VERIF_ONLY") // "point:n" restricts the crash runs (replay)
+	dedup := os.Getenv("VERIF_DEDUP") != ""
+	seenJob := map[[20]byte]bool{}
 	tid := 0
 	jobs := []*vkCrashJob{}
 	stats := map[string]int{}
@@ -707,6 +723,18 @@ func TestVerifCrash(t *testing.T) {
 					}
 					if only != "" && only != fmt.Sprintf("%s:%d", name, g) {
 						continue
+					}
+					if dedup {
+						// the outcome of a crash depends only on the state before the interrupted
+						// operation, the operation and the crash site: workloads sharing a prefix
+						// would repeat the same scenario
+						kb, _ := json.Marshal([]interface{}{wl.Cfg, states[i], st, name, n})
+						key := sha1.Sum(kb)
+						if seenJob[key] {
+							stats["skipped_duplicate_scenario"]++
+							continue
+						}
+						seenJob[key] = true
 					}
 					tid++
 					jobs = append(jobs, &vkCrashJob{tid: tid, wl: wl, point: name, global: g, opIdx: i, local: n,
